@@ -88,7 +88,7 @@ C06LT = [("Mc.Props.C06Lift", "Mc.C06.C06_distinct_targets"), ("Mc.Props.C06Lift
 
 C08T = [("Mc.Props.C07", "Mc.C07." + t) for t in ["C07_gate", "C07_child_happy", "C07_wait", "C07_progress", "C07_complete", "C07_complete_forall", "C07_claims_filtered"]] + \
        [("Mc.Props.C08", "Mc.C08." + t) for t in ["C08_never_back", "C08_progress", "C08_pending_shrinks", "C08_pending_drops", "C08_completes",
-                                                  "C08_rollout_completes", "C08_stays_complete", "syncRollingUpdate_eq_round", "flatOf_desired", "phase1_inv", "phase2_inv"]]
+                                                  "C08_rollout_completes", "C08_stays_complete", "syncRollingUpdate_eq_round", "flatOf_desired", "phase1_inv", "phase2_inv", "revChildren_setRevChildren"]]
 
 C01T = [("Mc.Props.C01", "Mc.C01." + t) for t in ["silent_ret", "C01_updateGroup_quiet", "C01_deleteGroup_quiet", "C01_manage_quiet", "C01_equal_is_fix", "C01_ssa_quiet"]] + \
        [("Mc.Props.C01Closed", "Mc.C01." + t) for t in ["delete_live", "create_free", "deleteGroup_run", "createGroup_run"]] + \
